@@ -278,8 +278,8 @@ class Effects:
         guard = self._guard_of(fi, n)
         if guard is not None and ("isinstance(" in src(guard) and cls == "TypeError"):
             definite = False
-        if cls == "NotImplementedError":
-            definite = False
+        if cls in ("NotImplementedError", "RuntimeError"):
+            definite = False      # internal-consistency raises ("cannot happen" branches); listed, never a verdict
         return [cls], definite, "raise %s" % cls
 
     def _guard_isinstance(self, fi, node):
@@ -324,10 +324,22 @@ class Effects:
                 if len(ts) == 1 and ts[0].is_generator():
                     gens[s.targets[0].id] = ts[0]
         counts = {}
+        in_genexp = set()
+        for ge in walk_shallow(fnode):
+            if isinstance(ge, ast.GeneratorExp):
+                for x in ast.walk(ge):
+                    in_genexp.add(id(x))
         for n in sorted([x for x in walk_shallow(fnode) if isinstance(x, ast.Call)], key=lambda c: (c.lineno, c.col_offset)):
             if call_name(n) == "next" and len(n.args) == 1:
                 a = n.args[0]
                 g = gens.get(a.id) if isinstance(a, ast.Name) else None
+                if id(n) in in_genexp:
+                    # PEP 479: StopIteration raised inside a generator (expression) surfaces as RuntimeError
+                    if g is None or self.generator_min_yields(g) < (1 << 19):
+                        out.append(Site("RuntimeError", "implicit", fi, n, True,
+                                        "next(%s) inside a generator expression: exhaustion surfaces as RuntimeError (PEP 479), which no "
+                                        "`except StopIteration` catches" % src(a)))
+                    continue
                 if g is not None:
                     counts[a.id] = counts.get(a.id, 0) + 1
                     if counts[a.id] > self.generator_min_yields(g):
